@@ -100,8 +100,9 @@ func (x *fnCtx) callValue(st *State, in ssa.Instruction, c *ssa.CallCommon, fnv 
 	default:
 		rt = sig.Results()
 	}
-	// top-level-only call-site clauses
-	if fr.isTop && x.con != nil {
+	// call-site clauses of the function under verification also bind the calls made by the
+	// uncontracted helpers that are inlined into it
+	if x.con != nil {
 		x.callSiteClauses(st, fr, in, c, name, fnv, args)
 	}
 	record := func(st2 *State, res *Val) {
@@ -333,7 +334,7 @@ func (x *fnCtx) doPanic(st *State, in ssa.Instruction, why string) {
 func (x *fnCtx) doGo(st *State, fr *Frame, g *ssa.Go) {
 	fnv, args := x.evalCallOperands(st, fr, &g.Call)
 	name := calleeName(&g.Call)
-	if fr.isTop && x.con != nil {
+	if x.con != nil {
 		x.callSiteClauses(st, fr, g, &g.Call, name, fnv, args)
 		x.recordTrace(st, "go:"+name, &g.Call, fnv, args, nil)
 	}
@@ -572,6 +573,16 @@ func (x *fnCtx) callSiteClauses(st *State, fr *Frame, in ssa.Instruction, c *ssa
 		return
 	}
 	site := x.ord(fr, in)
+	// the clauses belong to the function under verification: inside an inlined helper its
+	// names (parameters, locals, ghosts) are still the ones in scope
+	inlined := !fr.isTop
+	siteFn := ""
+	if inlined {
+		siteFn = fr.fn.Name() + ":"
+	}
+	if len(st.frames) > 0 {
+		fr = st.frames[0]
+	}
 	for _, cl := range x.con.ClausesOf("at_call") {
 		if !cl.appliesTo(x.eng.prop) || !matchCallee(cl.Arg, name) {
 			continue
@@ -626,7 +637,7 @@ func (x *fnCtx) callSiteClauses(st *State, fr *Frame, in ssa.Instruction, c *ssa
 				names["$iarg"] = nameBind{v: a}
 				alts = append(alts, x.evalSpecBool(env, cl.Expr))
 			}
-			x.addVC(st, x.short, "at_call", cl.Ord, fmt.Sprintf("%d", site), Or(alts...), fmt.Sprintf("at call of %s, some interface argument: %s", name, cl.Text), x.eng.posStr(in.Pos()))
+			x.addVC(st, x.short, "at_call", cl.Ord, fmt.Sprintf("%s%d", siteFn, site), Or(alts...), fmt.Sprintf("at call of %s, some interface argument: %s", name, cl.Text), x.eng.posStr(in.Pos()))
 			continue
 		}
 		if strings.Contains(cl.Text, "$arg") {
@@ -637,12 +648,12 @@ func (x *fnCtx) callSiteClauses(st *State, fr *Frame, in ssa.Instruction, c *ssa
 				}
 				names["$arg"] = nameBind{v: a}
 				g := x.evalSpecBool(env, cl.Expr)
-				x.addVC(st, x.short, "at_call", cl.Ord, fmt.Sprintf("%d.arg%d", site, i), g, fmt.Sprintf("at call of %s, string argument %d: %s", name, i, cl.Text), x.eng.posStr(in.Pos()))
+				x.addVC(st, x.short, "at_call", cl.Ord, fmt.Sprintf("%s%d.arg%d", siteFn, site, i), g, fmt.Sprintf("at call of %s, string argument %d: %s", name, i, cl.Text), x.eng.posStr(in.Pos()))
 			}
 			continue
 		}
 		g := x.evalSpecBool(env, cl.Expr)
-		x.addVC(st, x.short, "at_call", cl.Ord, fmt.Sprintf("%d", site), g, fmt.Sprintf("at call of %s: %s", name, cl.Text), x.eng.posStr(in.Pos()))
+		x.addVC(st, x.short, "at_call", cl.Ord, fmt.Sprintf("%s%d", siteFn, site), g, fmt.Sprintf("at call of %s: %s", name, cl.Text), x.eng.posStr(in.Pos()))
 	}
 	for _, cl := range x.con.ClausesOf("only_calls") {
 		if !cl.appliesTo(x.eng.prop) {
@@ -678,12 +689,12 @@ func (x *fnCtx) callSiteClauses(st *State, fr *Frame, in ssa.Instruction, c *ssa
 		}
 		if c.IsInvoke() {
 			if !allowed[c.Method.Name()] {
-				x.addVC(st, x.short, "only_calls", cl.Ord, fmt.Sprintf("%d", site), Not(same(fnv)), fmt.Sprintf("method %s may not be called on %s", c.Method.Name(), cl.Expr.String()), x.eng.posStr(in.Pos()))
+				x.addVC(st, x.short, "only_calls", cl.Ord, fmt.Sprintf("%s%d", siteFn, site), Not(same(fnv)), fmt.Sprintf("method %s may not be called on %s", c.Method.Name(), cl.Expr.String()), x.eng.posStr(in.Pos()))
 			}
 			// arguments of an invoke escape to an unknown implementation
 			for _, a := range args {
 				if s := same(a); s != False {
-					x.addVC(st, x.short, "only_calls", cl.Ord, fmt.Sprintf("%d.esc", site), Not(s), fmt.Sprintf("%s escapes as argument of %s", cl.Expr.String(), name), x.eng.posStr(in.Pos()))
+					x.addVC(st, x.short, "only_calls", cl.Ord, fmt.Sprintf("%s%d.esc", siteFn, site), Not(s), fmt.Sprintf("%s escapes as argument of %s", cl.Expr.String(), name), x.eng.posStr(in.Pos()))
 				}
 			}
 			continue
@@ -731,7 +742,7 @@ func (x *fnCtx) callSiteClauses(st *State, fr *Frame, in ssa.Instruction, c *ssa
 						}
 					}
 					if !ok {
-						x.addVC(st, x.short, "only_calls", cl.Ord, fmt.Sprintf("%d.arg%d.%s", site, i, stt.Field(fi).Name()), Not(sf), fmt.Sprintf("%s passed in field %s to %s which declares no matching role", cl.Expr.String(), stt.Field(fi).Name(), name), x.eng.posStr(in.Pos()))
+						x.addVC(st, x.short, "only_calls", cl.Ord, fmt.Sprintf("%s%d.arg%d.%s", siteFn, site, i, stt.Field(fi).Name()), Not(sf), fmt.Sprintf("%s passed in field %s to %s which declares no matching role", cl.Expr.String(), stt.Field(fi).Name(), name), x.eng.posStr(in.Pos()))
 					}
 				}
 				continue
@@ -761,7 +772,7 @@ func (x *fnCtx) callSiteClauses(st *State, fr *Frame, in ssa.Instruction, c *ssa
 				}
 			}
 			if !ok {
-				x.addVC(st, x.short, "only_calls", cl.Ord, fmt.Sprintf("%d.arg%d", site, i), Not(s), fmt.Sprintf("%s passed to %s which declares no matching role", cl.Expr.String(), name), x.eng.posStr(in.Pos()))
+				x.addVC(st, x.short, "only_calls", cl.Ord, fmt.Sprintf("%s%d.arg%d", siteFn, site, i), Not(s), fmt.Sprintf("%s passed to %s which declares no matching role", cl.Expr.String(), name), x.eng.posStr(in.Pos()))
 			}
 		}
 		// closures capturing the target
